@@ -340,6 +340,10 @@ func runC12(c *sim.Ctx) *sim.Violation {
 	}
 	var ops []drv.Op
 	for i := 0; i < n; i++ {
+		if t.Bool(1, 12) {
+			ops = append(ops, drv.Op{Kind: "sibling", N: uint32(t.Int(3))})
+			continue
+		}
 		ops = append(ops, c12Op(g, typ))
 	}
 	if t.Bool(1, 2) {
